@@ -6,6 +6,7 @@ VARIABLES st, hist
 Acts ==
   {[op |-> "add_uid", a |-> u, tag |-> "p1", prim |-> FALSE] : u \in UidNames} \cup {[op |-> "add_uid", a |-> "B", tag |-> "p2", prim |-> TRUE]}
   \cup {[op |-> "recertify", a |-> u, tag |-> "p2", prim |-> FALSE] : u \in {"A", "B"}} \cup {[op |-> "recertify", a |-> "A", tag |-> "p3", prim |-> TRUE]}
+  \cup {[op |-> "recertify", a |-> "B", tag |-> "p1", prim |-> FALSE]}          \* a re-certification WITHOUT a validity period (lifts an earlier one)
   \cup {[op |-> "third", a |-> u, tag |-> "t", prim |-> FALSE] : u \in {"A", "IMG"}} \cup {[op |-> "third-local", a |-> "A", tag |-> "t", prim |-> FALSE]}
   \cup {[op |-> "revoke_uid", a |-> u, tag |-> "r", prim |-> FALSE] : u \in {"A", "B"}}
   \cup {[op |-> "del_uid", a |-> u, tag |-> "-", prim |-> FALSE] : u \in {"A", "B"}}
